@@ -1,4 +1,5 @@
 import XalanModel.Generated.C02_Recycle
+import XalanModel.Generated.C02_NodeSetBuilders
 import XalanModel.C02.CompileProofs
 import XalanModel.C02.CompileWhole
 import XalanModel.C02.CompareProofs
@@ -264,5 +265,25 @@ theorem recycle_contract :
 
 /-- the table is not empty: the four memoised members of XNodeSetBase, XStringBase and XNumber are in it -/
 example : 4 ≤ recycleTable.length := by decide
+
+/-! ## Functions that build a node-set deliver a proper node-set
+
+A node-set is a set (XPath §1, §5): consumers that do not re-sort see the list as the function delivers it.  The table is
+regenerated from the source by `translate/c02_nodeset_builders.py`. -/
+
+/-- the plain appends audited as safe: a single node, or nodes taken in order from an ordered duplicate-free input -/
+def allowedPlainAppends (file : String) : Nat :=
+  if file = "XalanEXSLT/XalanEXSLTMath.cpp" then 2
+  else if file = "XalanExtensions/FunctionDistinct.cpp" then 1
+  else 0
+
+/-- **Node-set builders**: `id()` fills its result with ordered, duplicate-rejecting inserts only, and no function that builds a
+node-set result appends more often than the audited cases.  Replacing `addNodeInDocOrder` by `addNode` anywhere, or a new
+appending builder, makes this fail by name; the values are checked by the evaluation stream through consumers that do not
+re-sort (`count`, `string`, `name`, the delivered list itself). -/
+theorem nodeset_builders_ordered :
+    (∀ e ∈ nodeSetBuilders, e.plainAppends ≤ allowedPlainAppends e.file) ∧
+    (∃ e ∈ nodeSetBuilders, e.file = "XPath/FunctionID.cpp" ∧ e.plainAppends = 0 ∧ 1 ≤ e.orderedInserts) := by
+  decide
 
 end XalanModel.Props.C02
